@@ -10,17 +10,17 @@ Trace == ndJsonDeserialize(IOEnv.TRACE)
 VARIABLES l, tid, rejected
 Ev == Trace[l]
 Idle == /\ trees = << >> /\ pending = << >> /\ work = <<>> /\ i = 0 /\ progress = 0 /\ devleft = {}
-        /\ errs = FALSE /\ pc = "trace" /\ naug = 0
+        /\ errs = FALSE /\ pc = "trace" /\ sincefix = 0 /\ nfix = 0 /\ naug = 0
 TInit == l = 1 /\ tid = 0 /\ rejected = FALSE /\ prog = [mods |-> << >>, ignoreNS |-> FALSE] /\ Idle
-Keep == UNCHANGED <<trees, pending, work, i, progress, devleft, errs, pc, naug>>
+Keep == UNCHANGED <<trees, pending, work, i, progress, devleft, errs, pc, sincefix, nfix, naug>>
 Reset == /\ l <= Len(Trace) /\ Ev.ev = "reset" /\ tid' = Ev.tid /\ rejected' = FALSE /\ l' = l + 1 /\ UNCHANGED prog /\ Keep
 \* the program becomes the value of the variable the specification's operators read
 TProgram == /\ l <= Len(Trace) /\ Ev.ev = "program" /\ prog' = Ev.prog /\ l' = l + 1 /\ UNCHANGED <<tid, rejected>> /\ Keep
 SeqSet(s) == {s[k] : k \in 1..Len(s)}
 Proj(f) == [p |-> f.p, kind |-> IF "struct" \in Focus THEN f.kind ELSE "",
-            ns |-> IF "ns" \in Focus /\ ~f.implicit THEN f.ns ELSE "",
+            ns |-> IF "ns" \in Focus THEN f.ns ELSE "",
             ro |-> IF "ro" \in Focus THEN f.ro ELSE FALSE,
-            attrs |-> IF "attrs" \in Focus /\ ~f.implicit THEN <<f.cfg, f.mand, f.dflt, f.la, f.units, f.type>> ELSE <<>>]
+            attrs |-> IF "attrs" \in Focus /\ ~f.implicit THEN <<f.cfg, f.mand, f.dflt, f.la, f.units, f.type, f.iff>> ELSE <<>>]
 ExpectedErr == BuildErr \/ CanonFinal.err
 ObservedOK(e) ==
   /\ "errs" \in Focus => e.errs = ExpectedErr
